@@ -101,13 +101,16 @@ def install_observers(sim, rec, snapshots=True):
     slots_cache = {}
 
     def on_generation(sim_, opt, agents, task_type):
-        if opt is not rec.optimizer:
+        if opt is not rec.optimizer or not sim_.obs.get("observing"):
             return
         sim_.event("generation", len(agents) if agents is not None else -1)
         if snapshots:
             rec.snapshots.append([dump_agent(a) for a in agents])
 
     def on_obj_call(sim_, task, tdesc, x):
+        if not sim_.obs.get("observing"):
+            sim_.event("obj_call", "history")
+            return
         rec.obj_calls += 1
         n = rec.obj_calls
         t = sim_.cur()
@@ -127,6 +130,8 @@ def install_observers(sim, rec, snapshots=True):
         sim_.fault_plan.on_obj_call(sim_, n)
 
     def on_pool_results(sim_, executors, res):
+        if not sim_.obs.get("observing"):
+            return
         futs = list(executors)
         want = sorted(id(f._result) for f in futs if getattr(f, "_exception", None) is None)
         got = sorted(id(r) for r in res)
@@ -140,7 +145,7 @@ def install_observers(sim, rec, snapshots=True):
         rec.pool_sections.append(sec)
 
     def on_greedy(sim_, opt, old, new, out):
-        if opt is not rec.optimizer:
+        if opt is not rec.optimizer or not sim_.obs.get("observing"):
             return
         so = sorted(old, key=lambda a: a.cost)
         sn = sorted(new, key=lambda a: a.cost)
@@ -156,7 +161,7 @@ def install_observers(sim, rec, snapshots=True):
                            "mode": str(getattr(opt, "_mode", ""))})
 
     def on_step(sim_, opt, phase):
-        if phase == "begin" and opt is rec.optimizer:
+        if phase == "begin" and opt is rec.optimizer and sim_.obs.get("observing"):
             rec.steps += 1
 
     sim.obs["on_generation"] = on_generation
@@ -214,6 +219,19 @@ def run_scenario(desc, keep_events=0, event_kinds=None, pre_ops=None) -> RunReco
     sim.adopt_main()
     try:
         with contextlib.redirect_stdout(out):
+            # instance / process history: earlier optimize() calls (their outcome is not the subject)
+            for h in desc.get("history") or []:
+                try:
+                    ht = tasks.build_task(h["task"])
+                    ho = opt if h.get("instance", "same") == "same" else cls(make_config(desc["optimizer"], desc["config"]))
+                    ho.optimize(ht, mode=h.get("mode", "serial"))
+                    sim.count("history_runs_completed")
+                except kernel.SimAbort:
+                    raise
+                except BaseException:
+                    sim.count("history_runs_failed")
+            rec.cfg_before = dump_model(cfg)
+            sim.obs["observing"] = True
             try:
                 mode = desc.get("mode", "serial")
                 kw = {}
